@@ -1,31 +1,56 @@
 #!/usr/bin/env python3
-"""For every seeded change under /verif/seeded: apply it to /repo, run every claimed check (quick),
-record which checks report a violation (and whether with a concrete failing input), undo."""
-import json, os, subprocess, sys
-sys.path.insert(0, '/verif/checklib')
+"""For every seeded change under /verif/seeded: apply it to the repository, run every claimed check (quick),
+record which checks report a violation (and whether with a concrete failing input), undo.
+
+  seed_matrix.py [seed-ids...]                 works on /repo itself (apply, run, `git checkout -- .`)
+  seed_matrix.py --sandbox DIR [seed-ids...]   works on copies DIR/verif and DIR/repo (made here, removed at the
+                                               end), so /verif can be edited meanwhile; only seeded/*/meta.json
+                                               is written back
+"""
+import json, os, shutil, subprocess, sys
+args = sys.argv[1:]
+sandbox = None
+if args and args[0] == '--sandbox':
+    sandbox = args[1]
+    args = args[2:]
+only = args
+VERIF, REPO = '/verif', '/repo'
+env = dict(os.environ)
+if sandbox:
+    shutil.rmtree(sandbox, ignore_errors=True)
+    os.makedirs(sandbox)
+    subprocess.run(['cp', '-a', '/verif', f'{sandbox}/verif'], check=True)
+    subprocess.run(['git', 'clone', '-q', '/repo', f'{sandbox}/repo'], check=True)
+    shutil.rmtree(f'{sandbox}/verif/.work/cache', ignore_errors=True)
+    VERIF, REPO = f'{sandbox}/verif', f'{sandbox}/repo'
+    env['VERIF_REPO'] = REPO
+sys.path.insert(0, f'{VERIF}/checklib')
 from props import PROPS
-only = sys.argv[1:]
-for sid in sorted(os.listdir('/verif/seeded')):
-    if only and sid not in only:
-        continue
-    d = f'/verif/seeded/{sid}'
-    if not os.path.exists(f'{d}/patch.diff'):
-        continue
-    assert subprocess.run(['git', '-C', '/repo', 'status', '--short'], capture_output=True, text=True).stdout.strip() == ''
-    r = subprocess.run(['git', '-C', '/repo', 'apply', f'{d}/patch.diff'])
-    if r.returncode != 0:
-        print(sid, 'patch does not apply'); continue
-    det = {}
-    try:
-        for pid in sorted(PROPS):
-            r = subprocess.run(['./check', pid, 'quick'], cwd='/verif', capture_output=True, text=True)
-            line = [l for l in r.stdout.split('\n') if l.startswith('VIOLATION') or l.startswith('OK')]
-            line = line[-1] if line else r.stdout[-200:]
-            if line.startswith('VIOLATION'):
-                det[pid] = 'no-failing-input-found' if line.endswith('no-failing-input-found') else 'failing-input'
-    finally:
-        subprocess.run(['git', '-C', '/repo', 'checkout', '--', '.'])
-    meta = json.load(open(f'{d}/meta.json'))
-    meta['detected_by'] = det
-    json.dump(meta, open(f'{d}/meta.json', 'w'), indent=1)
-    print(sid, meta['property'], det)
+try:
+    for sid in sorted(os.listdir('/verif/seeded')):
+        if only and sid not in only:
+            continue
+        d = f'/verif/seeded/{sid}'
+        if not os.path.exists(f'{d}/patch.diff'):
+            continue
+        assert subprocess.run(['git', '-C', REPO, 'status', '--short'], capture_output=True, text=True).stdout.strip() == ''
+        r = subprocess.run(['git', '-C', REPO, 'apply', f'{d}/patch.diff'])
+        if r.returncode != 0:
+            print(sid, 'patch does not apply', flush=True); continue
+        det = {}
+        try:
+            for pid in sorted(PROPS):
+                r = subprocess.run(['python3', f'{VERIF}/checklib/main.py', pid, 'quick'], cwd=VERIF, capture_output=True, text=True, env=env)
+                line = [l for l in r.stdout.split('\n') if l.startswith('VIOLATION') or l.startswith('OK')]
+                line = line[-1] if line else r.stdout[-200:]
+                if line.startswith('VIOLATION'):
+                    det[pid] = 'no-failing-input-found' if line.endswith('no-failing-input-found') else 'failing-input'
+        finally:
+            subprocess.run(['git', '-C', REPO, 'checkout', '--', '.'])
+        meta = json.load(open(f'{d}/meta.json'))
+        meta['detected_by'] = det
+        json.dump(meta, open(f'{d}/meta.json', 'w'), indent=1)
+        print(sid, meta['property'], det, flush=True)
+finally:
+    if sandbox:
+        shutil.rmtree(sandbox, ignore_errors=True)
